@@ -494,6 +494,13 @@ theorem original_region_released_on_replacement_in_source :
         (((p.2.dropWhile (· != "c.regions.put(reg)")).takeWhile (· != "c.newRegionClientFn")).filter
           (· == "originalReg.MarkAvailable")).length)) = [2]) := by decide
 
+/-- Regenerated from rpc.go: the last statement of `establishRegion`'s retry loop is `addr = ""`, so
+every iteration that did not return — failed dial, probe refused (NotServingRegion or retry-later),
+connection lost — is followed by a fresh lookup (`stepDial`: `.notServing` and `.serverError` lead
+to `sleepL`, the loop top *with* lookup). Keeping the address after a refused probe would probe
+the old server for ever while the region has opened elsewhere (`probe-refused-then-moved`). -/
+theorem establish_loop_looks_up_again_in_source : Exits.establishLoopEndsWithAddrReset = true := by decide
+
 /-- In a list of calls in source order: every `c.regions.put(reg)` has a `reg.MarkUnavailable`
 before it with no `reg.MarkAvailable` in between. -/
 def markedBeforePut : Bool → List String → Bool
